@@ -8,6 +8,7 @@
 
 (declare-sort GSeq 0)
 (declare-sort GStr 0)
+(declare-sort GBytes 0)
 
 ; 4 KiB rounding, clamped at 0 for negative arguments
 (define-fun r4k ((n Int)) Int (* 4096 (div (+ n 4095) 4096)))
@@ -36,6 +37,8 @@
 ; strings.HasPrefix and regular-expression matching are uninterpreted
 (declare-fun hasPrefix (GStr GStr) Bool)
 (declare-fun reMatch (Int GStr) Bool)
+; code of a (hash, size) digest pair, for ghost sets of digests
+(declare-fun dkey (GStr Int) Int)
 ; name of an open file
 (declare-fun fileName (Int) GStr)
 ; eviction queue (ghost bag of entries handed to the remover)
@@ -61,6 +64,25 @@
 ; @axiom nncount-mono
 ; @needs nncount
 (assert (forall ((A (Array Int Int)) (o Int) (a Int) (b Int)) (! (=> (and (<= 0 a) (<= a b)) (<= (nncount A o a) (nncount A o b))) :pattern ((nncount A o a) (nncount A o b)))))
+
+; --- byte streams (what was read from a reader / fed to a hasher), abstract ---------
+(declare-fun sempty () GBytes)
+; sapp(s, A, o, n): s extended by the n bytes A[o], ..., A[o+n-1]
+(declare-fun sapp (GBytes (Array Int Int) Int Int) GBytes)
+(declare-fun scat (GBytes GBytes) GBytes)
+; lower-case hex of the SHA-256 of a stream
+(declare-fun hexsum (GBytes) GStr)
+; the stream whose digest was written into the byte array with this identity by hash.Hash.Sum
+(declare-fun sumsrc (Int) GBytes)
+; @axiom scat-empty
+; @needs scat sempty
+(assert (forall ((a GBytes)) (! (= (scat a sempty) a) :pattern ((scat a sempty)))))
+; @axiom scat-app
+; @needs scat sapp
+(assert (forall ((a GBytes) (b GBytes) (A (Array Int Int)) (o Int) (n Int)) (! (= (sapp (scat a b) A o n) (scat a (sapp b A o n))) :pattern ((sapp (scat a b) A o n)))))
+; @axiom sapp-zero
+; @needs sapp
+(assert (forall ((a GBytes) (A (Array Int Int)) (o Int)) (! (= (sapp a A o 0) a) :pattern ((sapp a A o 0)))))
 
 ; boxing of strings into interface payloads, and interface-typed map keys
 (declare-fun box.str (GStr) Int)
